@@ -11,7 +11,14 @@ V=$(mktemp -d /tmp/seedverif.XXXXXX)
 trap 'rm -rf $D $V' EXIT
 cp -r /repo/cola $D/cola
 (cd $D && patch -p1 -s < $PATCH)
-rsync -a --exclude .git --exclude work --exclude seeded /verif/ $V/
+# the COMMITTED state of /verif (builders may be editing the working tree), plus the build cache
+if [ "${SEEDED_LIVE:-0}" = 1 ]; then
+  rsync -a --exclude .git --exclude work --exclude seeded /verif/ $V/
+else
+  git -C /verif archive HEAD | tar -x -C $V
+  rm -rf $V/seeded
+  mkdir -p $V/lean/.lake && rsync -a /verif/lean/.lake/ $V/lean/.lake/
+fi
 mkdir -p /verif/work
 set +e
 (cd $V && COLA_SRC_ROOT=$D PYTHONPATH=$D VERIF_SEED=${VERIF_SEED:-0} ./check $ID $TIER) > /verif/work/seeded_$TAG.out 2>&1
